@@ -1,6 +1,7 @@
 (* C02 — Encoding produces the canonical FM-94 bit stream for the given values.
    Statements only. *)
 From PBK Require Import Base Bits BitsProofs Descr Walk Coder Float53 Decode Encode Spec SpecProofs.
+From PBK Require Import Column ColumnProofs DecodeC EncodeC SpecC SpecCProofs SpecCExamples.
 
 (* Whenever the encoder accepts a value list for a template (any template: all
    operators, bitmaps, nested replication; any number of subsets), the data bits
@@ -48,3 +49,42 @@ Theorem C02_fields_read_back : forall fs o t,
             read_fields fs (e ++ t) = Ok (map field_value fs, t).
 Proof. exact fields_roundtrip. Qed.
 Print Assumptions C02_fields_read_back.
+
+(* ==========================================================================
+   COMPRESSED data (SpecC.v): every element of the template is one COLUMN over
+   all subsets.
+   ========================================================================== *)
+
+(* Whenever the compressed encoder accepts the value lists for a template (any
+   template: all operators, bitmaps, nested and delayed replication; any number
+   of subsets), the data bits it writes are bit for bit the concatenation,
+   column after column in template order (one column per decoded element,
+   replications expanded), of the fields of the canonical column layout; the
+   descriptors and attribute links it records are those of the layout. *)
+Theorem C02_encode_canonical_compressed : forall T vals outs w,
+  encode_compressed T vals = Ok (outs, w) ->
+  exists fs, layout_c T vals = Ok (outs, fs) /\ write_fields fs [] = Ok w.
+Proof. exact encode_canonical_compressed. Qed.
+Print Assumptions C02_encode_canonical_compressed.
+
+(* the same, column by column *)
+Theorem C02_encode_canonical_columns : forall T vals outs w,
+  encode_compressed T vals = Ok (outs, w) ->
+  exists cols, layout_cols T vals = Ok (outs, cols) /\ write_fields (flat_map col_fields cols) [] = Ok w.
+Proof. exact encode_canonical_columns. Qed.
+Print Assumptions C02_encode_canonical_columns.
+
+Theorem C02_encode_is_canonical_bits_c : forall T vals outs w,
+  encode_compressed T vals = Ok (outs, w) -> canonical_bits_c T vals = Ok w.
+Proof. exact encode_is_canonical_bits_c. Qed.
+Print Assumptions C02_encode_is_canonical_bits_c.
+
+(* non-vacuity: a template with a delayed and a fixed replication, 3 subsets with
+   missing entries; the encoder accepts, and the layout has these 8 columns *)
+Example C02_compressed_nonvacuous :
+  exists outs w, encode_compressed spc_T spc_vals = Ok (outs, w) /\ length w = 295%nat /\
+                 canonical_bits_c spc_T spc_vals = Ok w.
+Proof. exact spc_encoder_accepts. Qed.
+Example C02_compressed_columns :
+  exists outs, layout_cols spc_T spc_vals = Ok (outs, spc_cols) /\ length outs = 3%nat.
+Proof. exact spc_layout_cols. Qed.
